@@ -111,3 +111,49 @@ Theorem C17_sma_binary64_forgets : forall p s xs1 xs2 M, sma_new FOps p = Ok s -
   (Rabs (FR (last (sma_outs' FOps s xs1) 0%float) - FR (last (sma_outs' FOps s xs2) 0%float)) <=
    (1 / 10 ^ 12 + 1 / 10 ^ 15 * (INR (length xs1) * R_sqrt.sqrt (INR (length xs1)))) * M)%R.
 Proof. exact sma_float_forgets_tau. Qed.
+
+(* ... and the same for MeanAbsoluteDeviation *)
+From TA Require Import Proofs.FloatMadErr.
+Theorem C17_mad_binary64_forgets : forall p s xs1 xs2 M, mad_new FOps p = Ok s -> (p <= 140737488355328)%N ->
+  (1 <= M)%R -> (M <= bpow radix2 400)%R -> Forall (okin M) xs1 -> Forall (okin M) xs2 ->
+  (INR (length xs1) * u <= / 64)%R -> xs2 <> [] -> (length xs2 <= length xs1)%nat ->
+  lastn (N.to_nat p) xs1 = lastn (N.to_nat p) xs2 ->
+  (Rabs (FR (last (Wiring.mad_outs FOps s xs1) 0%float) - FR (last (Wiring.mad_outs FOps s xs2) 0%float)) <=
+   (1 / 10 ^ 12 + 1 / 10 ^ 15 * (INR (length xs1) * R_sqrt.sqrt (INR (length xs1)))) * M)%R.
+Proof. exact mad_float_forgets_tau. Qed.
+
+(* RateOfChange and EfficiencyRatio forget EXACTLY, in every number type — in particular bit for bit on binary64, NaN and infinities
+   included: two histories of at least n+1 inputs sharing their last n+1 inputs give identical last outputs *)
+From TA Require Import Proofs.GRoc Proofs.GEr.
+Theorem C17_er_forgets_any_carrier : forall (F : Type) (O : Ops F) p s (h1 h2 : list F) x1 x2 d, er_new O p = Ok s ->
+  (N.to_nat p <= length h1)%nat -> (N.to_nat p <= length h2)%nat ->
+  lastn (S (N.to_nat p)) (h1 ++ [x1]) = lastn (S (N.to_nat p)) (h2 ++ [x2]) ->
+  last (res_outs (er_next O) s (h1 ++ [x1])) d = last (res_outs (er_next O) s (h2 ++ [x2])) d.
+Proof. exact @ger_forgets. Qed.
+Theorem C17_roc_forgets_any_carrier : forall (F : Type) (O : Ops F) p s (h1 h2 : list F) x1 x2 d, roc_new O p = Ok s ->
+  (N.to_nat p <= length h1)%nat -> (N.to_nat p <= length h2)%nat ->
+  lastn (S (N.to_nat p)) (h1 ++ [x1]) = lastn (S (N.to_nat p)) (h2 ++ [x2]) ->
+  last (res_outs (roc_next O) s (h1 ++ [x1])) d = last (res_outs (roc_next O) s (h2 ++ [x2])) d.
+Proof. exact @groc_forgets. Qed.
+Theorem C17_er_roc_forget_binary64 : forall p (h1 h2 : list PrimFloat.float) x1 x2,
+  (N.to_nat p <= length h1)%nat -> (N.to_nat p <= length h2)%nat ->
+  lastn (S (N.to_nat p)) (h1 ++ [x1]) = lastn (S (N.to_nat p)) (h2 ++ [x2]) ->
+  (forall s, er_new FOps p = Ok s ->
+     last (res_outs (er_next FOps) s (h1 ++ [x1])) 0%float = last (res_outs (er_next FOps) s (h2 ++ [x2])) 0%float) /\
+  (forall s, roc_new FOps p = Ok s ->
+     last (res_outs (roc_next FOps) s (h1 ++ [x1])) 0%float = last (res_outs (roc_next FOps) s (h2 ++ [x2])) 0%float).
+Proof. intros p h1 h2 x1 x2 L1 L2 E. split; intros s H; [apply (ger_forgets FOps p s h1 h2 x1 x2 _ H L1 L2 E)|apply (groc_forgets FOps p s h1 h2 x1 x2 _ H L1 L2 E)]. Qed.
+
+(* FastStochastic (scalar path) forgets exactly in every number type whose comparison totally orders the inputs; on binary64 (inputs free
+   of NaN and -0.0) the outputs are bit-identical *)
+From TA Require Import Proofs.GFast.
+Theorem C17_fast_forgets_any_carrier : forall (F : Type) (O : Ops F) (P : F -> Prop) p s (h1 h2 : list F) d,
+  order_on (Base.ltb O) (Base.inf O) P -> order_on (fun a b => Base.ltb O b a) (Base.ninf O) P ->
+  fast_new O p = Ok s -> Forall P h1 -> Forall P h2 -> h1 <> [] -> h2 <> [] ->
+  lastn (N.to_nat p) h1 = lastn (N.to_nat p) h2 ->
+  last (fast_outs O s h1) d = last (fast_outs O s h2) d.
+Proof. exact @gfast_forgets. Qed.
+Theorem C17_fast_forgets_binary64 : forall p s (h1 h2 : list PrimFloat.float) d, fast_new FOps p = Ok s ->
+  Forall okF h1 -> Forall okF h2 -> h1 <> [] -> h2 <> [] -> lastn (N.to_nat p) h1 = lastn (N.to_nat p) h2 ->
+  last (fast_outs FOps s h1) d = last (fast_outs FOps s h2) d.
+Proof. exact fast_forgets_binary64. Qed.
